@@ -121,7 +121,11 @@ func shareArrays(rec *spg.CharRecipe, sibs []spg.CharRecipe) []spg.CharRecipe {
 	same := *rec
 	same.ExcludeChars += firstChar(rec.RequireSets[0])
 	same.AllowChars += "w"
-	return append(sibs, longer, same)
+	flagged := *rec // the very same slice next to class flags: whatever the library adds for the classes must not land in the table
+	flagged.Require |= spg.Digits | spg.Symbols
+	flagged.Allow |= spg.Lowers
+	flagged.Length += 2
+	return append(sibs, longer, same, flagged)
 }
 
 // siblingsOf builds field-regrouped variants of rec.
@@ -165,8 +169,30 @@ func siblingsOf(r *gen.R, rec spg.CharRecipe) []spg.CharRecipe {
 		p := r.Perm(len(out))
 		out = []spg.CharRecipe{out[p[0]], out[p[1]], out[p[2]]}
 	}
+	// the sets (and the custom strings) run together with the delimiters a flattened description of a recipe
+	// would use: two recipes that read the same once flattened are still two recipes
+	if len(rec.RequireSets) >= 2 {
+		p := r.Perm(len(siblingDelims))
+		for _, k := range p[:3] {
+			a := clone()
+			a.RequireSets = []string{strings.Join(rec.RequireSets, siblingDelims[k])}
+			out = append(out, a)
+		}
+	}
+	if len(rec.RequireSets) >= 1 && (rec.AllowChars != "" || rec.ExcludeChars != "") {
+		d := siblingDelims[r.Intn(len(siblingDelims))]
+		a := clone() // the first set moved to the end of the exclusion string, behind a delimiter
+		a.ExcludeChars = rec.ExcludeChars + d + rec.RequireSets[0]
+		a.RequireSets = a.RequireSets[1:]
+		b := clone() // the exclusion string moved to the end of the allowed string
+		b.AllowChars = rec.AllowChars + d + rec.ExcludeChars
+		b.ExcludeChars = ""
+		out = append(out, a, b)
+	}
 	return out
 }
+
+var siblingDelims = []string{"|", ",", ";", ":", "/", "\x00", "\n", "\x1f", "+", "\t"}
 
 func firstChar(s string) string {
 	cs := oracle.Chars(s)
